@@ -36,7 +36,7 @@ theorem C18_create_bucket_refines (H : Hashes) (dl : Nat) {s : State} (hi : Inv 
     Inv (step H dl s (.createBucket b)).1 := createBucket_refines H dl hi hg
 
 /-- delete_bucket: full (any name both sides accept or both refuse) — a bucket that still holds objects is refused with
-    `BucketNotEmpty` by both and stays (dbc4627; before: fs:delete-nonempty-bucket), an empty bucket is gone -/
+    `BucketNotEmpty` by both and stays (24de822; before: fs:delete-nonempty-bucket), an empty bucket is gone -/
 theorem C18_delete_bucket_refines (H : Hashes) (dl : Nat) {s : State} (hi : Inv s) {b : Bytes} (hg : NameOk b) :
     (step H dl s (.deleteBucket b)).2 = (StoreSpec.step H (abs s) (.deleteBucket b)).2 ∧
     abs (step H dl s (.deleteBucket b)).1 = (StoreSpec.step H (abs s) (.deleteBucket b)).1 ∧
@@ -74,7 +74,7 @@ theorem C18_put_refines_partial (H : Hashes) (dl : Nat) {s : State} (hi : Inv s)
 
 /-- get_object, whole and with ANY range (int, open-ended, suffix of any length): the most recently written content,
     metadata, MD5 ETag; for a range the RFC 9110 slice (`rfcInterval`) with `Content-Range` and `Content-Length`,
-    `InvalidRange` when unsatisfiable; a missing key is `NoSuchKey`, a missing bucket `NoSuchBucket` (391a940; before:
+    `InvalidRange` when unsatisfiable; a missing key is `NoSuchKey`, a missing bucket `NoSuchBucket` (cc244fc; before:
     fs:missing-bucket-reported-as-missing-key). Partial — excluded: leftover directories, non-canonical keys -/
 theorem C18_get_refines_partial (H : Hashes) (dl : Nat) {s : State} (hi : Inv s) {b k : Bytes} {range : Option Range}
     (hg : GetOk s b k) :
@@ -97,7 +97,7 @@ theorem C18_range_slice (H : Hashes) (o : Obj) (r : Range) (st en : Nat)
 theorem C18_range_check (r : Range) (len : Nat) :
     rangeCheck r len = DtoSpec.rfcInterval (toByteRange r) len := rangeCheck_eq r len
 
-/-- head_object: length, metadata and MD5 ETag of the most recent write — the answers agree in every member (3751248;
+/-- head_object: length, metadata and MD5 ETag of the most recent write — the answers agree in every member (42c2f29;
     before, head_object returned no ETag: fs:head-without-etag); a missing key in an existing bucket (`NoSuchKey`) and a
     missing bucket (`NoSuchBucket`) are answered alike (d6f1a3c; before: fs:head-missing-key-code). Partial — excluded: a
     directory left behind at the path (fs:leftover-directory) -/
@@ -107,7 +107,7 @@ theorem C18_head_refines_partial (H : Hashes) (dl : Nat) {s : State} (hi : Inv s
     Inv (step H dl s (.headObject b k)).1 := head_refines H dl hi hg
 
 /-- delete_object: deleted objects are gone; deleting a key that does not exist succeeds and changes nothing, a missing
-    bucket is `NoSuchBucket` (fe75a0e; before: fs:delete-missing-key-error and the delete_object part of
+    bucket is `NoSuchBucket` (20fee59; before: fs:delete-missing-key-error and the delete_object part of
     fs:missing-bucket-reported-as-missing-key). Partial — excluded only: a directory left behind at the path
     (fs:leftover-directory), non-canonical keys -/
 theorem C18_delete_refines_partial (H : Hashes) (dl : Nat) {s : State} (hi : Inv s) {b k : Bytes} (hg : DeleteOk s b k) :
@@ -116,7 +116,7 @@ theorem C18_delete_refines_partial (H : Hashes) (dl : Nat) {s : State} (hi : Inv
     Inv (step H dl s (.deleteObject b k)).1 := delete_refines H dl hi hg
 
 /-- delete_objects: all named objects are gone, all are reported; on a bucket that does not exist the answer is
-    `NoSuchBucket` whatever the keys (`InvalidArgument` when one is refused; 902249e, before:
+    `NoSuchBucket` whatever the keys (`InvalidArgument` when one is refused; 0f31b61, before:
     fs:delete-objects-in-missing-bucket). Partial — excluded, when the bucket exists: keys that do not exist
     (fs:delete-objects-omits-missing-keys), repeated keys (fs:delete-objects-duplicate-key), non-canonical keys; error
     answers on an existing bucket are not covered -/
@@ -129,7 +129,7 @@ theorem C18_delete_objects_refines_partial (H : Hashes) (dl : Nat) {s : State} (
 /-- copy_object: the destination becomes the source's content, metadata and checksums; an object copied onto itself
     stays as it is. Partial — excluded: a destination metadata file the source lacks (fs:stale-metadata-after-copy),
     differing recorded checksums (fs:stale-checksum-after-copy); a missing source bucket is `NoSuchBucket` on both
-    sides (391a940) -/
+    sides (cc244fc) -/
 theorem C18_copy_refines_partial (H : Hashes) (dl : Nat) {s : State} (hi : Inv s) {sb sk db dk : Bytes}
     (hg : CopyOk s sb sk db dk) :
     (step H dl s (.copyObject sb sk db dk)).2 = (StoreSpec.step H (abs s) (.copyObject sb sk db dk)).2 ∧
